@@ -25,11 +25,14 @@ def _h(x):
 
 
 def expected_count(t0, dt, tend):
+    """smallest N with t0 + N*dt >= Tend up to rounding: the quotient is computed exactly from the floats given; it counts as an
+    integer if it is one within the representation error of the inputs (relative 1e-9, or 2 ulp of the largest time over dt)"""
+    import math
     q = (Fraction(tend) - Fraction(t0)) / Fraction(dt)
     n = int(q)
     if q != n:
-        # integer up to rounding?
-        if abs(q - round(q)) <= Fraction(1, 10 ** 9):
+        tol = max(Fraction(1, 10 ** 9), 2 * Fraction(math.ulp(max(abs(t0), abs(tend), 1e-300))) / Fraction(dt))
+        if abs(q - round(q)) <= tol:
             return int(round(q))
         return n + 1
     return n
@@ -63,9 +66,13 @@ def run(case):
     rank = {f: k + 1 for k, f in enumerate(floats)}
     ids = {}
     cid = lambda h: ids.setdefault(h, len(ids) + 1)  # noqa
-    # "up to rounding": within 1e-9 * dt of Tend
-    near = lambda x: abs(Fraction(x) - Fraction(tend)) <= Fraction(dt) / 10 ** 9  # noqa
+    # "up to rounding": within 1e-9 * dt of Tend, or within the rounding error n additions of numbers of the magnitude of the
+    # times can accumulate (one unit in the last place per addition) -- the latter dominates for large |t0|
     import math
+    mag = max(abs(t0), abs(tend), 1e-300)
+    slack = max(Fraction(dt) / 10 ** 9, (len(steps) + 2) * Fraction(math.ulp(mag)))
+    slack = min(slack, Fraction(dt) / 4)  # never so wide that a genuinely different start time counts as Tend
+    near = lambda x: abs(Fraction(x) - Fraction(tend)) <= slack  # noqa
 
     def close(a, b):  # equal up to 4 units in the last place of the larger magnitude
         return abs(Fraction(a) - Fraction(b)) <= 4 * Fraction(math.ulp(max(abs(a), abs(b), 1e-300)))
